@@ -330,6 +330,45 @@ def main():
         die("XalanParsedURI::parse: %d reads `uriString[…]`, the model has 15" % n_reads)
     uri_parse_bounded = scheme_bounded and auth_bounded
 
+    # StylesheetExecutionContextDefault::pushCurrentTemplate: the depth guard.  Every push onto m_currentTemplateStack goes through it; does the
+    # test count every push, or only those with a non-null template (xsl:for-each pushes 0, a named template called inside it pushes that 0 again)?
+    sx = strip(read(os.path.join(SRC, "XSLT", "StylesheetExecutionContextDefault.cpp")))
+    # (the constructors and reset() put one null entry at the bottom: the stack starts with one element)
+    if len(re.findall(r"m_currentTemplateStack\.push_back\(", sx)) != 1 + len(re.findall(r"m_currentTemplateStack\.push_back\(0\);", sx)) or \
+       len(re.findall(r"m_currentTemplateStack\.push_back\(theTemplate\);", sx)) != 1:
+        die("StylesheetExecutionContextDefault: apart from the bottom entries `push_back(0)`, m_currentTemplateStack.push_back( is expected exactly once (in pushCurrentTemplate)")
+    pm = need(r"StylesheetExecutionContextDefault::pushCurrentTemplate\(const\s+ElemTemplate\s*\*\s*theTemplate\)\s*\{(.*?)m_currentTemplateStack\.push_back\(theTemplate\);\s*\}", sx,
+              "pushCurrentTemplate(theTemplate) { … m_currentTemplateStack.push_back(theTemplate); }", re.S)
+    pbody = pm.group(1)
+    dm = re.search(r"if\s*\(\s*(theTemplate\s*!=\s*0\s*&&\s*)?m_currentTemplateStack\.size\(\)\s*(>=|==)\s*eMaximumTemplateDepth\s*\)\s*\{", pbody)
+    if not dm:
+        die("pushCurrentTemplate: the depth test `if ([theTemplate != 0 &&] m_currentTemplateStack.size() >= | == eMaximumTemplateDepth)` was not found")
+    depth_counts_null = dm.group(1) is None         # no exemption for null entries
+    depth_op_ge = dm.group(2) == ">="
+    if not re.search(r"throw\s+XSLTProcessorException\(", pbody) or "InfiniteRecursion_1Param" not in pbody:
+        die("pushCurrentTemplate: the depth test no longer throws XSLTProcessorException(InfiniteRecursion_1Param)")
+    sxh = strip(read(os.path.join(SRC, "XSLT", "StylesheetExecutionContextDefault.hpp")))
+    max_depth = int(need(r"eMaximumTemplateDepth\s*=\s*(\d+)", sxh, "eMaximumTemplateDepth = <n>").group(1))
+    # every instantiation of a template and every xsl:for-each pushes: the callers
+    pushers = {}
+    for rel in ("XSLT/ElemTemplate.cpp", "XSLT/ElemForEach.cpp"):
+        t = strip(read(os.path.join(SRC, rel)))
+        pushers[rel] = len(re.findall(r"pushCurrentTemplate\(|PushAndPopCurrentTemplate\s+\w+\(", t))
+    if pushers["XSLT/ElemTemplate.cpp"] < 3 or pushers["XSLT/ElemForEach.cpp"] < 2:
+        die("ElemTemplate / ElemForEach no longer push the current template where expected: %s" % pushers)
+
+    # XalanDOMString.cpp: the doXercesTranscode that returns bool (local code page, used for the error message of XalanTransformer): starts with
+    # source length + 1 elements, retries with `step` more until the size reaches `factor` x the source length, then gives up and clears the target
+    ds = strip(read(os.path.join(SRC, "XalanDOM", "XalanDOMString.cpp")))
+    gm = need(r"inline\s+bool\s+doXercesTranscode\((.*?)\n\}", ds, "inline bool doXercesTranscode(…)", re.S)
+    gb = gm.group(1)
+    need(r"theTargetVector\.resize\(theSourceStringLength\s*\+\s*1\);", gb, "doXercesTranscode: initial resize(theSourceStringLength + 1)")
+    need(r"theTargetVector\.size\(\)\s*-\s*1,", gb, "doXercesTranscode: transcode(…, size() - 1, …)")
+    fm = need(r"if\s*\(theTargetVector\.size\(\)\s*>=\s*theSourceStringLength\s*\*\s*(\d+)\)\s*\{\s*break;\s*\}\s*else\s*\{\s*theTargetVector\.resize\(theTargetVector\.size\(\)\s*\+\s*(\d+)\);", gb,
+              "doXercesTranscode: `if (size() >= theSourceStringLength * F) break; else resize(size() + S)`")
+    tr_factor, tr_step = int(fm.group(1)), int(fm.group(2))
+    need(r"if\s*\(fSuccess\s*==\s*false\)\s*\{\s*theTargetVector\.clear\(\);", gb, "doXercesTranscode: clear() on failure")
+
     # inventory (information)
     inv = []
     for rel in ANCHORED:
@@ -393,6 +432,15 @@ def main():
     L.append("def numberValueCastGuarded : Bool := %s" % ("true" if num_guarded else "false"))
     L.append("/-- XalanParsedURI::resolve: all three decrements of the \"../\" handling are written `if (index > 0) --index;` -/")
     L.append("def uriDecrementsGuarded : Bool := %s" % ("true" if uri_guarded else "false"))
+    L.append("/-- eMaximumTemplateDepth -/")
+    L.append("def maximumTemplateDepth : Nat := %d" % max_depth)
+    L.append("/-- StylesheetExecutionContextDefault::pushCurrentTemplate: the depth test counts every push (no `theTemplate != 0 &&` in front of it) -/")
+    L.append("def templateDepthGuardCountsNull : Bool := %s" % ("true" if depth_counts_null else "false"))
+    L.append("/-- … and is written `size() >= eMaximumTemplateDepth` (false: `==`) -/")
+    L.append("def templateDepthGuardGe : Bool := %s" % ("true" if depth_op_ge else "false"))
+    L.append("/-- XalanDOMString.cpp, the growing-buffer doXercesTranscode: gives up when the target holds `factor` x the source length; grows by `step` -/")
+    L.append("def transcodeGrowthFactor : Nat := %d" % tr_factor)
+    L.append("def transcodeGrowthStep : Nat := %d" % tr_step)
     L.append("/-- XalanParsedURI::parse: the scheme test and the \"//\" test carry their own bound (`index < uriStringLen && uriString[index] == ':'`, `index + 1 < uriStringLen`) -/")
     L.append("def uriParseBounded : Bool := %s" % ("true" if uri_parse_bounded else "false"))
     L.append("/-- XalanOutputStream::transcode: the retry loop stops when the transcoder made no progress (`else if (src == 0 && tgt == 0)`) -/")
